@@ -51,6 +51,9 @@ type Fault struct {
 	Response func(s *Sess, resp *spb.ModifyResponse) *spb.ModifyResponse
 	// Get may rewrite the stream of Get responses.
 	Get func(p *Proxy, req *spb.GetRequest, resps []*spb.GetResponse) []*spb.GetResponse
+	// GetEndErr, when set, is the status every Get RPC ends with after its (possibly
+	// rewritten) responses were streamed.
+	GetEndErr error
 	// Flush may handle a flush itself (handled=true) or rewrite the request.
 	Flush func(p *Proxy, req *spb.FlushRequest) (out *spb.FlushRequest, resp *spb.FlushResponse, err error, handled bool)
 }
@@ -210,19 +213,23 @@ func (g *getWrap) Send(r *spb.GetResponse) error {
 
 // Get implements the gRIBI service.
 func (p *Proxy) Get(req *spb.GetRequest, stream spb.GRIBI_GetServer) error {
-	if p.F == nil || p.F.Get == nil {
+	if p.F == nil || (p.F.Get == nil && p.F.GetEndErr == nil) {
 		return p.Inner.Get(req, stream)
 	}
 	gw := &getWrap{GRIBI_GetServer: stream}
 	if err := p.Inner.Get(req, gw); err != nil {
 		return err
 	}
-	for _, r := range p.F.Get(p, req, gw.out) {
+	out := gw.out
+	if p.F.Get != nil {
+		out = p.F.Get(p, req, out)
+	}
+	for _, r := range out {
 		if err := stream.Send(r); err != nil {
 			return err
 		}
 	}
-	return nil
+	return p.F.GetEndErr
 }
 
 // Flush implements the gRIBI service.
